@@ -3,6 +3,7 @@ from __future__ import annotations
 
 import ast
 
+from sa import norm
 from sa.context import Context, names_in
 from sa.model import AnalysisError, dotted, short
 from sa.rules import common as C
@@ -205,10 +206,32 @@ def run(ctx: Context, rep) -> None:
         "(zip in declaration order) through the same decode_array the "
         "Python reader uses, and applies it to every example")
     init = ctx.fn(f"{RG}.__init__")
-    to_dict = ctx.repo.module(C.ITER_MOD).functions.get(
-        "RustGenerator.__init__.<locals>.to_dict")
+    # the decoder is whatever `map(self.<decoder>, ...)` in the iterator
+    # function names: a method, or a closure stored by __init__
+    mod = ctx.repo.module(C.ITER_MOD)
+    dec_names = [c.args[0].attr for c in single.calls() if isinstance(
+        c.func, ast.Name) and c.func.id == "map" and len(c.args) == 2 and
+        isinstance(c.args[0], ast.Attribute) and dotted(c.args[0].value) ==
+        "self"]
+    to_dict = None
+    for dn in dec_names:
+        to_dict = mod.functions.get(f"RustGenerator.{dn}")
+        if to_dict is None:
+            for n in init.body_nodes():
+                if isinstance(n, ast.Assign) and dotted(
+                        n.targets[0]) == f"self.{dn}" and isinstance(
+                            n.value, ast.Name):
+                    to_dict = mod.functions.get(
+                        f"RustGenerator.__init__.<locals>.{n.value.id}")
+        if to_dict is not None and any(ast.unparse(c.func).endswith(
+                "decode_array") for c in to_dict.calls()):
+            dec_names = [dn]
+            break
+        to_dict = None
     if to_dict is None:
-        raise AnalysisError("C15.decode: to_dict closure not found")
+        raise AnalysisError("C15.decode: decoder mapped over the native "
+                            "iterator not found")
+    dparams = [p for p in to_dict.params() if p != "self"]
     fors = [n for n in to_dict.body_nodes() if isinstance(n, ast.For)]
     ok = False
     construct = "<none>"
@@ -218,8 +241,8 @@ def run(ctx: Context, rep) -> None:
         if isinstance(it, ast.Call) and isinstance(
                 it.func, ast.Name) and it.func.id == "zip" and len(it.args) == 2:
             a0, a1 = it.args
-            ok = isinstance(a0, ast.Name) and a0.id == to_dict.params()[0] and \
-                ast.unparse(a1).endswith("saved_data_description")
+            ok = isinstance(a0, ast.Name) and a0.id == dparams[0] and \
+                norm.canon(to_dict, a1).endswith("saved_data_description")
     rep.ob("C15.decode", ok, loc=to_dict.loc(), where=to_dict.qualname,
            construct=construct,
            message="byte vectors are paired with attribute declarations "
@@ -247,7 +270,7 @@ def run(ctx: Context, rep) -> None:
     # map(self._to_dict, iter(self._rust_iter))
     maps = [c for c in single.calls() if isinstance(c.func, ast.Name) and
             c.func.id == "map" and len(c.args) == 2 and
-            dotted(c.args[0]) == "self._to_dict"]
+            dotted(c.args[0]) in [f"self.{d}" for d in dec_names]]
     rep.ob("C15.decode", len(maps) == 1 and "self._rust_iter" in
            ast.unparse(maps[0].args[1]) if maps else False,
            loc=single.loc(maps[0]) if maps else single.loc(),
